@@ -187,6 +187,12 @@ def units(w):
         U.append(rel_unit("nodes.py::NodeFor.evaluate", "set", lambda it, n=n: b_for(it, n, "set"), c_for, n))
         for what in ("keys", "values", "entries"):
             U.append(rel_unit("nodes.py::NodeFor.evaluate", f"map {what}", lambda it, n=n, what=what: b_for(it, n, "map", what), c_for, n))
+        # destructuring for-loop: the members of a set element are bound in sorted order
+        def b_fordestr(it, n=n):
+            node = Obj(nodes["NodeFor"], {"identifiers": PList(["a", "b", "c"]), "expression": None, "block": None, "what": None, "pos": V.pos(it)})
+            return [node, mkset(it, n)]
+        U.append(rel_unit("nodes.py::NodeFor.destructure", "set element", b_fordestr, lambda it, a: it.call(w.func("nodes.py::NodeFor.destructure"), a), n))
+
         # set arithmetic, sum of a set's list, membership
         def b_arith(it, cname, n=n):
             f = Obj(funcs[cname], {"name": cname, "secure": True})
@@ -235,10 +241,84 @@ require List; append(out, List->unique(list(s) + list(s)));
 set_seed(42); append(out, [random(100), random(100), random(100)]);
 append(out, string(mixed)); append(out, [x for x in mixed]);
 def o = <*b = 1, a = 2*>; append(out, string(o)); append(out, [k for k in keys <<<'k2' => 1, 'k1' => 2>>>]);
+def l3 = []; for [a, b, c] in [<<'pear', 'apple', 'fig'>>, <<'x', 2, 1.5>>] do append(l3, [a, b, c]) end; append(out, l3);
+def l4 = []; for [a, b] in values <<<1 => <<'kiwi', 'lime'>>, 2 => <<'u', 't'>> >>> do append(l4, [a, b]) end; append(out, l4);
+def kinds = <<NULL, TRUE, FALSE, 'pear', 'apple', [1, 2], ['a'], 3, -4, 2.5, date('20200101'), 100000000, //a//, <<'in', 'ner'>>, <<<'k' => 'v'>>> >>;
+append(out, string(kinds)); append(out, [x for x in kinds]); append(out, list(kinds)); append(out, [...kinds]);
+def l5 = []; for x in kinds do append(l5, string(x)) end; append(out, l5);
+def [k1, k2, k3, k4] = kinds; append(out, [k1, k2, k3, k4]);
+append(out, string(<<<NULL => 1, TRUE => 2, 'pear' => 3, 'apple' => 4, [1] => 5, 7 => 6, date('20200101') => 7>>>));
+append(out, sorted([NULL, TRUE, 'pear', [1, 2], 3, 'apple', FALSE, 2.5]));
 do error s catch all append(out, 'caught') end;
 println(string(out));
 error <<'e2', 'e1'>>;
 '''
+
+
+ORDER_POOL = ["NULL", "TRUE", "FALSE", "0", "3", "-5", "10", "100000000", "20200101000000", "-0.5", "0.5", "2.0", "3.0", "100000000000000000000.0", "-7.25",
+              "''", "'a'", "'10'", "'-4'", "'['", "'<'", "'A'", "'\\n'", "'\\''", "'~'", "' '", "'NULL'", "'TRUE'",
+              "date('20200101')", "date('19991231')", "date('20200102')",
+              "[]", "[1]", "[2]", "[10]", "[1, 2]", "['a']", "[[1]]", "[NULL]", "[TRUE]", "[date('20200101')]", "[2.5]",
+              "<<>>", "<<1>>", "<<2>>", "<<10>>", "<<1, 2>>", "<<'a'>>", "<<<>>>", "<<<1 => 2>>>", "<<<'a' => 1>>>", "<<<10 => 1>>>",
+              "//a//", "//[0-9]+//", "<*a=1*>", "<*b=2*>", "<**>", "fn(x) x", "length", "sum"]
+
+
+def order_consistency():
+    """the value order used for sorting sets and map keys is asymmetric, total on unequal values and transitive over a pool
+    of values of every kind (otherwise sorted() output depends on the host iteration order it starts from)"""
+    import importlib
+    import itertools as itt
+    import os
+    import sys
+    root = os.path.join(os.environ.get("VERIF_REPO", "/repo"), "src")
+    if root not in sys.path:
+        sys.path.insert(0, root)
+    for m in [k for k in sys.modules if k == "ckl" or k.startswith("ckl.")]:
+        del sys.modules[m]
+    I = importlib.import_module("ckl.interpreter").Interpreter(True, False)
+    vals = [(e, I.interpret(e, "pool")) for e in ORDER_POOL]
+    fails, ev = [], 0
+    for (ea, a), (eb, b) in itt.product(vals, vals):
+        ev += 1
+        try:
+            l1, l2, eq = a < b, b < a, a == b
+        except Exception as ex:
+            fails.append({"id": "bounded:order-comparison-raises", "input": f"{ea} < {eb}", "observed": repr(ex), "expected": "a boolean"})
+            continue
+        if l1 and l2:
+            fails.append({"id": "bounded:order-asymmetric", "input": f"{ea} , {eb}", "observed": "a < b and b < a", "expected": "at most one"})
+        if not l1 and not l2 and not eq:
+            fails.append({"id": "bounded:order-total-on-unequal-values", "input": f"{ea} , {eb}", "observed": "neither a < b nor b < a nor a == b",
+                          "expected": "exactly one (sorted() keeps incomparable elements in host iteration order)"})
+        if eq and (l1 or l2):
+            fails.append({"id": "bounded:order-irreflexive-on-equal-values", "input": f"{ea} , {eb}", "observed": "a == b and a < b", "expected": "not both"})
+    for (ea, a), (eb, b), (ec, c) in itt.product(vals, vals, vals):
+        ev += 1
+        if a < b and b < c and not a < c:
+            fails.append({"id": "bounded:order-transitive", "input": f"{ea} < {eb} < {ec}", "observed": "not a < c", "expected": "a < c"})
+            if len(fails) > 20:
+                break
+    # and the observable consequence: every permutation of a mixed list sorts to the same text
+    import random
+    rnd = random.Random(7)
+    for _ in range(300):
+        sample = rnd.sample(ORDER_POOL, 4)
+        vs = [I.interpret(e, "pool") for e in sample]
+        if any(x == y for x, y in itt.combinations(vs, 2)):
+            continue      # equal values (3 and 3.0) keep their input order by design (stable sort); a set never holds both
+        texts = set()
+        for perm in itt.permutations(sample):
+            ev += 1
+            texts.add(str(I.interpret("sorted([" + ", ".join(perm) + "])", "pool")))
+        if len(texts) != 1:
+            fails.append({"id": "bounded:sorted-is-permutation-invariant", "input": "sorted of permutations of [" + ", ".join(sample) + "]",
+                          "observed": " | ".join(sorted(texts))[:300], "expected": "one text"})
+    seen, uniq = set(), []
+    for f in fails:
+        if f["id"] not in seen:
+            seen.add(f["id"])
+            uniq.append(f)
+    return uniq, ev
 
 
 def bounded(tier, seed):
@@ -246,6 +326,9 @@ def bounded(tier, seed):
     import subprocess
     import sys
     import time
+    t0 = time.time()
+    ofails, oev = order_consistency()
+    t_order = time.time() - t0
     t0 = time.time()
     root = os.path.join(os.environ.get("VERIF_REPO", "/repo"), "src")
     nseeds = 32 if tier == "thorough" else 8
@@ -271,7 +354,11 @@ def bounded(tier, seed):
                       "observed": "..." + a[max(0, pos - 60):pos + 60] + "...", "expected": "..." + b[max(0, pos - 60):pos + 60] + "..."})
     elif "ERR <<'e1', 'e2'>>" not in list(outs)[0] or "Traceback" in list(outs)[0] or "caught" not in list(outs)[0]:
         fails.append({"id": "bounded:program-did-not-run", "input": "PROGRAM", "observed": list(outs)[0][-400:], "expected": "output and ERR line"})
-    return [BoundedResult("the same program in fresh processes under different string-hash seeds (real interpreter)",
+    return [BoundedResult("consistency of the value order across kinds (real value classes)",
+                          f"all pairs and triples of a pool of {len(ORDER_POOL)} values of every kind: asymmetry, totality on unequal values, transitivity; "
+                          "sorted() of all permutations of 300 random 4-element mixed lists", oev, oev, ofails,
+                          ["NULL , TRUE , [1, 2]", "date('20200101') , 3 , 100000000"], "what makes sorted enumeration canonical; the per-kind part is proved in C07", t_order),
+            BoundedResult("the same program in fresh processes under different string-hash seeds (real interpreter)",
                           f"{nseeds} processes, one program exercising every iteration/conversion/spread/destructuring/rendering path and the set library with string elements",
                           nseeds, nseeds, fails, [{"PYTHONHASHSEED": procs[0][0]}], "the property's own experiment in small", time.time() - t0)]
 
